@@ -383,7 +383,7 @@ func FaultCheck() {
 			"the oracle requires: state failed (never success, never a hang) where the manifestation is decided to be fatal, reported fqname inside the failing stage, " +
 			"no job of a dependent call (reference dependency closure) started, no error on independent jobs, and after a restart without the fault: completion, " +
 			"outputs equal to the reference, and no re-execution of jobs that had completed. distinct = distinct (shape, job, manifestation, level, schedule); " +
-			"in addition, with mrp's automatic retry (attemptRetry + restart mirrored by the harness): every job dies from a signal on its first 1 / 2 / all attempts with 1 or 2 retries allowed - it must recover exactly when the failures fit the retries, run the failing job once per attempt and nothing else twice, otherwise end failed naming the stage - and a stage-raised error is never retried. "+
+			"in addition, with mrp's automatic retry (attemptRetry + restart mirrored by the harness): every job dies from a signal on its first 1 / 2 / all attempts with 1 or 2 retries allowed - it must recover exactly when the failures fit the retries, run the failing job once per attempt and nothing else twice, otherwise end failed naming the stage - and a stage-raised error is never retried. " +
 			"non-trivial = the fault site was reached"
 		r.Set("shapes", len(shapes))
 		if os.Getenv("VERIF_NO_TIERB") == "" {
